@@ -459,6 +459,48 @@ theorem slide_confines_loose_heads (f : FUid) (W : List Key) (fuel : Nat) (h : H
 /-- non-vacuity / link: a state satisfying `PendingCovers W` satisfies the confinement invariant of every flow -/
 example (f : FUid) (W : List Key) (s : VM) (h : PendingCovers W s) : (covFlowInv f W).J s := coversOrFlow_of_pendingCovers h
 
+/-- **`add_new_flow_instance` keeps `PendingCovers W`**: the new instance (WAITING, one ACTIVE head on element 0) parks at once,
+    provided element 0 of the flow is a `match` — which `expand_elements` guarantees (`match StartFlow(flow_id=…)`) — and the
+    configuration handed in is the program's. -/
+theorem add_new_flow_instance_keeps_pending_covers (W : List Key) (p0 : Prog) (uid : FUid) (cfg : FlowCfg) (hp : String)
+    (args : List (String × Val)) (hcfg : p0.find cfg.id = some cfg) (spec : Spec) (internal : Bool)
+    (h0 : cfg.elements[0]? = some (.matchOp spec internal)) :
+    Keeps (covProgInv W p0) (addNewFlowInstance uid cfg hp args) :=
+  addNewFlowInstance_pendingCovers W p0 uid cfg hp args hcfg spec internal h0
+
+/-- non-vacuity of the two program hypotheses -/
+example :
+    let sp : Spec := { name := some "StartFlow", specType := .event, args := [], ref := none, members := none, varName := none }
+    let cfg : FlowCfg := { id := "a", elements := #[.matchOp sp true], labels := [], params := [], returnMembers := [],
+                           loopId := none, loopPriority := 0, metaTags := [] }
+    (Prog.mk [cfg]).find cfg.id = some cfg ∧ cfg.elements[0]? = some (.matchOp sp true) := by
+  simp [Prog.find]
+
+/-- **`_finish_flow` keeps `PendingCovers W`** (every worklist, every outcome) in programs whose flows all start with a `match`
+    element (`FirstIsMatch`, decidable per program; `expand_elements` puts `match StartFlow(flow_id=…)` first): children
+    aborted, heads dropped, the instance FINISHED — or, for the main flow, restarted WAITING and parked on element 0. -/
+theorem finish_flow_keeps_pending_covers (W : List Key) (p0 : Prog) (hfirst : FirstIsMatch p0) (fuel : Nat) (f : FUid)
+    (sc : List Score) (d : Bool) : Keeps (covProgInv W p0) (finishFlow fuel f sc d) :=
+  finishFlow_pendingCovers W p0 hfirst fuel f sc d
+
+/-- non-vacuity: the empty program, and a one-flow program starting with a `match` -/
+example : FirstIsMatch (Prog.mk []) := by intro cfg h; cases h
+example :
+    let sp : Spec := { name := some "StartFlow", specType := .event, args := [], ref := none, members := none, varName := none }
+    let cfg : FlowCfg := { id := "a", elements := #[.matchOp sp true], labels := [], params := [], returnMembers := [],
+                           loopId := none, loopPriority := 0, metaTags := [] }
+    FirstIsMatch (Prog.mk [cfg]) := by
+  intro sp cfg c h
+  simp only [List.mem_singleton] at h
+  subst h
+  exact ⟨sp, true, rfl⟩
+
+/-- **`_process_internal_events_without_default_matchers` keeps `PendingCovers W`** (programs with `FirstIsMatch`): StartFlow
+    creates an instance that parks at once, FinishFlow / StopFlow (by instance uid or by flow id) go through `_finish_flow` /
+    `_abort_flow`. -/
+theorem process_internal_event_keeps_pending_covers (W : List Key) (p0 : Prog) (hfirst : FirstIsMatch p0) (fuel : Nat) (e : Event) :
+    Keeps (covProgInv W p0) (processInternalEvent fuel e) := processInternalEvent_pendingCovers W p0 hfirst fuel e
+
 /-
   T2 (partially proved; kept as the target statement):
 
